@@ -91,6 +91,12 @@ def _cases(tier):
                 seqs += [q, q[::-1]]
         seqs.append(base + base)
         yield {"set": recs, "seqs": seqs, "L": 0, "merge": "default"}
+    # long sample lists: the position of the one record that introduces a field must not matter (anything done per block of
+    # samples shows at block boundaries: 64, 100, 128, 256)
+    base, extra = ["J", {"id": 1, "name": "x"}], ["J", {"id": 2, "name": "y", "extra": True}]
+    for n in (63, 64, 65, 99, 100, 101, 127, 128, 129, 200, 255, 256, 257):
+        seqs = [[0] * n + [1], [1] + [0] * n, [0] * (n // 2) + [1] + [0] * (n - n // 2), [0] * (n - 1) + [1, 0]]
+        yield {"set": [base, extra], "seqs": seqs, "L": 0, "merge": "default"}
     gs = [["G", g] for g in GRAPH_OBJS]
     for merge in merges:
         for n in range(1, gL + 1):
